@@ -324,6 +324,86 @@ impl Space for Chains {
     }
 }
 
+/// Rounded differences of date-times: every ordered pair of a set chosen so that the exact difference sits just
+/// below a carry (N years 11 months and more than half, 11 months 30 days 23:59:40, 23 h 59 min 40 s ...) x
+/// (largest, smallest, increment) cells from year down to second x 9 modes, against relative rounding (R5r).
+struct RoundedDiffs {
+    dts: Vec<Dt>,
+}
+impl RoundedDiffs {
+    fn new() -> Self {
+        let mut dts = vec![];
+        for (y, m, d) in [(2019, 3, 14), (2020, 3, 14), (2021, 3, 2), (2020, 2, 29), (2019, 12, 31), (2020, 1, 31), (2021, 3, 14), (2020, 3, 13), (2019, 4, 1), (2020, 2, 14)] {
+            for t in [0i128, 10 * 3_600_000_000_000 + 30 * 60_000_000_000, 8 * 3_600_000_000_000, 9 * 3_600_000_000_000 + 59 * 60_000_000_000 + 40_000_000_000, NS_PER_DAY - 1] {
+                dts.push(Dt::new(Ymd::new(y, m, d), t));
+            }
+        }
+        RoundedDiffs { dts }
+    }
+}
+fn rounded_cells() -> Vec<(usize, usize, i64)> {
+    let mut v = vec![];
+    for largest in 0..=4usize {
+        for smallest in [0usize, 1, 2, 3, 4, 5, 6] {
+            if smallest < largest {
+                continue;
+            }
+            v.push((largest, smallest, 1));
+            if smallest == largest && smallest <= 3 {
+                v.push((largest, smallest, 2));
+            }
+            if smallest == 5 {
+                v.push((largest, smallest, 15));
+            }
+        }
+    }
+    v
+}
+impl Space for RoundedDiffs {
+    fn name(&self) -> String {
+        "c05.rounded_differences".into()
+    }
+    fn len(&self) -> u64 {
+        (self.dts.len() * self.dts.len()) as u64
+    }
+    fn block(&self) -> u64 {
+        8
+    }
+    fn eval(&self, i: u64, out: &mut Out) {
+        use tmc_ref::r5r;
+        let n = self.dts.len();
+        let (a, b) = (self.dts[i as usize / n], self.dts[i as usize % n]);
+        let mk = |x: &Dt| plain_date_time(days_from_civil(x.date.y, x.date.m, x.date.d), x.tod);
+        let (Oc::Ok(pa), Oc::Ok(pb)) = (call(|| mk(&a)), call(|| mk(&b))) else { return };
+        if a != b {
+            out.nontrivial += 1;
+        }
+        let units = [Unit::Year, Unit::Month, Unit::Week, Unit::Day, Unit::Hour, Unit::Minute, Unit::Second];
+        let labels = ["year", "month", "week", "day", "hour", "minute", "second"];
+        for (largest, smallest, inc) in rounded_cells() {
+            for mode in tmc_ref::r4::ALL_MODES {
+                let settings = diff(Some(units[largest]), Some(units[smallest]), Some(imode(mode)), Some(inc as u32));
+                for (op, m) in [("PlainDateTime::until(rounded)", mode), ("PlainDateTime::since(rounded)", mode.negate())] {
+                    let since = op.contains("since");
+                    let model = match r5r::diff_with_rounding(a, b, largest, inc, smallest, m).and_then(|d| r5r::from_internal(&d, largest)) {
+                        Ok(f) => Ok(if since { f.map(|x| -x) } else { f }),
+                        Err(tmc_ref::r5::DErr::Range) => Err(ErrorKind::Range),
+                        Err(_) => {
+                            out.unjudged += 1;
+                            continue;
+                        }
+                    };
+                    let got = if since { call(|| pa.since(&pb, settings)) } else { call(|| pa.until(&pb, settings)) };
+                    out.lockstep(op, &model, &got, |mm, v| dur_i128(v) == *mm, || vec![("a", dt_text(&a)), ("b", dt_text(&b)), ("largest", labels[largest].to_string()), ("smallest", labels[smallest].to_string()), ("increment", inc.to_string()), ("mode", mode.name().to_string())]);
+                }
+            }
+        }
+    }
+    fn describe(&self) -> serde_json::Value {
+        json!({"date_times": self.dts.len(), "cells": rounded_cells().len(), "modes": 9})
+    }
+}
+
 pub fn spaces(env: &Env) -> Vec<Box<dyn Space>> {
     let dts = dt_alphabet();
     let durs = dur_alphabet(env.tier);
@@ -343,6 +423,7 @@ pub fn spaces(env: &Env) -> Vec<Box<dyn Space>> {
         Box::new(DiffSpace { dts: dts.clone() }),
         Box::new(Compose { dts }),
         Box::new(Chains { seeds, durs: chain_durs }),
+        Box::new(RoundedDiffs::new()),
         Box::new(crate::checks::c07::TimeRound::with_days("c05.round", env.tier, round_days)),
     ]
 }
